@@ -16,7 +16,68 @@ def monitor(sn, faulty):
     return monitors.mon_c05(sn)
 
 
+def _set_pods(sc, pods, replicas=None, slots=None):
+    import copy as _c, json as _j
+    for w in (sc["api"], sc["cache"]):
+        st = w.get("set")
+        if not st:
+            return sc
+        st["policy"] = "OrderedReady"
+        if replicas is not None:
+            st["replicas"] = replicas
+        ann = dict(st.get("ann") or {})
+        ann.pop("paused-reconcile", None)
+        if slots is not None:
+            if slots:
+                ann["delete-slots"] = _j.dumps(slots)
+            else:
+                ann.pop("delete-slots", None)
+        st["ann"] = ann or None
+        st["deleting"] = False
+        w["pods"] = _c.deepcopy(pods)
+    return sc
+
+
 def tweak(rng, sc):
+    from props.c01 import first_free
+    st = sc["cache"].get("set") or sc["api"].get("set")
+    if st is None:
+        return sc
+    rev = (st.get("status") or {}).get("updateRevision") or "web-x"
+    claims = st.get("claims") or []
+    r = rng.random()
+    if r < 0.12:
+        # a scale-in across the one-digit / two-digit boundary: the pods to go are named web-9, web-10, web-11 (name order is
+        # not ordinal order), everything else healthy or with one unready pod
+        reps = rng.choice([8, 9, 9, 10])
+        top = rng.choice([10, 11, 11, 12])
+        pods = [rc.mkpod(i, rev, claims=claims) for i in range(0, top + 1) if i < reps or rng.random() < 0.85]
+        if rng.random() < 0.3 and pods:
+            p = rng.choice(pods)
+            p["ready"] = False
+        return _set_pods(sc, pods, replicas=reps, slots=[])
+    if r < 0.24:
+        # a delete slot holding an UNHEALTHY pod below a desired pod that exists but is not Running+Ready
+        reps = rng.choice([3, 4, 5])
+        k = rng.randint(0, reps - 1)
+        desired = first_free(reps, {k})
+        later = [o for o in desired if o > k]
+        pods = [rc.mkpod(o, rev, claims=claims) for o in desired if rng.random() < 0.9]
+        if later:
+            j = rng.choice(later)
+            for p in pods:
+                if p["name"].endswith("-%d" % j):
+                    p.update(phase=rng.choice(["Pending", "Running"]), ready=False)
+        bad = rc.mkpod(k, rev, claims=claims)
+        mode = rng.random()
+        if mode < 0.4:
+            bad.update(phase="Pending", ready=False)
+        elif mode < 0.8:
+            bad.update(ready=False)
+        else:
+            bad.update(term=True)
+        pods.append(bad)
+        return _set_pods(sc, pods, replicas=reps, slots=[k])
     # the property quantifies over the ordered policy: force it on most snapshots
     if rng.random() < 0.9:
         for w in (sc["api"], sc["cache"]):
